@@ -14,6 +14,19 @@ cargo nextest run --workspace --no-fail-fast --offline --test-threads 8 > $sd/su
 grep -E "^\s+(FAIL|TIMEOUT)|Summary|^error" $sd/suite.log | sort | uniq
 bad=$(grep -E "^\s+(FAIL|TIMEOUT)" $sd/suite.log | grep -v "supervisor::tests::nested_supervisors\|supervisor::tests::restart_after_failure" | wc -l)
 grep -q "Summary" $sd/suite.log || bad=999
+echo "SUITE_UNEXPECTED_FAILURES(first run)=$bad"
+if [ "$bad" != "0" ] && [ "$bad" != "999" ]; then
+  # network tests flake when the machine is loaded: re-run the unexpected failures alone, twice
+  names=$(grep -E "^\s+(FAIL|TIMEOUT)" $sd/suite.log | grep -v "supervisor::tests::nested_supervisors\|supervisor::tests::restart_after_failure" | awk '{print $NF}' | sort -u)
+  expr=""; for t in $names; do expr="$expr${expr:+ | }test(=$t)"; done
+  still=0
+  for i in 1 2; do
+    cargo nextest run --workspace --no-fail-fast --offline --test-threads 4 -E "$expr" > $sd/suite_rerun_$i.log 2>&1 || still=$((still+1))
+    grep -E "Summary|^\s+(FAIL|TIMEOUT)" $sd/suite_rerun_$i.log | sort | uniq
+  done
+  echo "RERUN of [$names] alone: failed in $still of 2 runs"
+  [ $still -eq 0 ] && bad=0
+fi
 echo "SUITE_UNEXPECTED_FAILURES=$bad"
 git apply $sd/demo.diff || { echo "RESULT demo-does-not-apply"; exit 1; }
 echo "== [2] demo WITH patch (expected: fail): $demo"
